@@ -405,13 +405,15 @@ pub fn gen_rawlib(src: &mut Src, o: &RawGenOpts) -> RLib {
         let mut insts = vec![];
         let mut annotations = vec![];
         if has_layout {
-            let ns = src.usize_in(if ci == 0 { 1 } else { 0 }, 4);
+            // (now and then a cell with more shapes than any small inline buffer holds)
+            let ns = if src.prob(1, 60) { src.usize_in(9, 19) } else { src.usize_in(if ci == 0 { 1 } else { 0 }, 4) };
             for k in 0..ns {
                 let layer = src.index(layers.len());
                 // shapes never use the Label purpose themselves
                 let cand: Vec<usize> = (0..layers[layer].purposes.len()).filter(|i| layers[layer].purposes[*i].1 != RPurpose::Label).collect();
                 let purpose = cand[src.index(cand.len())];
-                let (geom, kind) = gen_geom(src, k);
+                // (windows 5-7 are left to the wire-and-contact family below)
+                let (geom, kind) = gen_geom(src, if k < 5 { k } else { k + 3 });
                 let geom = maybe_close(src, o, geom);
                 let mut net = if src.prob(3, 5) { Some(src.pick(NETS).to_string()) } else { None };
                 if net.is_some() && o.nets_need_label_purpose && layers[layer].label_num().is_none() {
@@ -448,7 +450,7 @@ pub fn gen_rawlib(src: &mut Src, o: &RawGenOpts) -> RLib {
             // instances of earlier cells that have a layout
             let targets: Vec<usize> = (0..ci).filter(|i| cells[*i].has_layout || o.instances_of_abstracts).collect();
             if !targets.is_empty() {
-                let ni = src.usize_in(0, 3);
+                let ni = if src.prob(1, 60) { src.usize_in(9, 40) } else { src.usize_in(0, 3) };
                 for k in 0..ni {
                     let t = if src.bool() { *targets.last().unwrap() } else { targets[src.index(targets.len())] };
                     insts.push(RInst { name: gen_inst_name(src, k), target: t, loc: (src.signed(5000), src.signed(5000)), o: Orient::from_index(src.index(8)), none_angle: src.bool() });
